@@ -17,7 +17,8 @@ THEOREMS = ["Pypika.C13.field_no_alias", "Pypika.C13.arith_no_alias", "Pypika.C1
             "Pypika.C13.groupby_item", "Pypika.C13.ref_is_defined", "Pypika.C13.fetch_family_no_groupby_alias",
             "Pypika.C13.groupby_alias_sticky",
             # term-level builders (Builder.lean stepT, tied call by call through harness/trace.py)
-            "Pypika.B.as_last_wins"]
+            "Pypika.B.as_last_wins",
+            "Pypika.B.select_terms_append", "Pypika.B.select_select", "Pypika.B.select_after_star_ignored"]
 AGREE = ["Pypika.Agree.format_alias", "Pypika.Agree.class_quotes"]
 TRUSTED = ["the alias vocabulary of the generator (aliases are recognised by name in the implementation's token stream)"]
 RULE = ("11 aliasable term kinds x 9 clause positions x 10 classes exhaustively (each with two operand shapes), plus random "
